@@ -116,6 +116,10 @@ def run(rec):
         if j % 5 == 2:
             Pt = MB.zcash.dec_g2(sigs[0])
             sigs.append(MB.zcash.enc_g2(params.BLS_E2.neg(Pt)))     # inverse: partial cancellation
+        if j % 6 == 3:
+            from . import curvegen as CG
+            Pt = MB.zcash.dec_g2(sigs[0])
+            sigs.insert(1, MB.zcash.enc_g2(CG.endo(params.BLS_FP2, Pt, 1 + j % 2)))          # same y, x times a cube root of unity
         rec.case("aggregate", ("agg", tuple(sigs)), sample={"fn": "Aggregate", "n": len(sigs)})
         call(suites[names[j % 3]].Aggregate, sigs)
 
